@@ -39,7 +39,7 @@ class InjectedFault(Exception):
 class Env:
     def __init__(self, plan: Optional[Tuple[str, int, str]]) -> None:
         self.plan = plan
-        self.counts: Dict[Tuple[str, str], int] = {}
+        self.counts: Dict[Tuple[str, str, Any], int] = {}
         self.injected: Optional[InjectedFault] = None
         self.injected_during: Optional[str] = None
         self.phase = 'construction'
@@ -48,8 +48,8 @@ class Env:
         self.proc: Any = None
         self.injected_after_termination = False
 
-    def fault(self, site: str, position: str) -> None:
-        key = (site, position)
+    def fault(self, site: str, position: str, who: Any = None) -> None:
+        key = (site, position, who)
         n = self.counts.get(key, 0) + 1
         self.counts[key] = n
         if self.plan is not None and self.plan == (site, n, position):
@@ -196,15 +196,19 @@ PROGRAMS = {'process': FaultProc, 'workchain': FaultChain}
 
 
 class FaultListener(plumpy.ProcessListener):
-    def __init__(self) -> None:
+    """Two of these listen to every process; a planned listener fault is raised by both (each at its own n-th call), so
+    that whichever the library notifies first, the other one must still get every notification."""
+
+    def __init__(self, tag: str = 'L1') -> None:
         super().__init__()
+        self.tag = tag
         self.seen: List[str] = []
 
 
 def _listener_method(name: str) -> Callable[..., Any]:
     def method(self: Any, process: Any, *args: Any) -> None:
         self.seen.append(name)
-        ENV.fault(f'listener:{name}', 'before')
+        ENV.fault(f'listener:{name}', 'before', self.tag)
 
     method.__name__ = name
     return method
@@ -258,6 +262,7 @@ class Run:
         self.loop: Optional[VLoop] = None
         self.contexts: List[dict] = []
         self.listener: Optional[FaultListener] = None
+        self.listener2: Optional[FaultListener] = None
         self.capped = False
         self.obs: Dict[str, Any] = {}
         self.probe: Optional[Dict[str, Any]] = None
@@ -286,8 +291,10 @@ class Run:
                 return
             ENV.phase = 'run'
             ENV.proc = proc
-            self.listener = FaultListener()
+            self.listener = FaultListener('L1')
+            self.listener2 = FaultListener('L2')
             proc.add_process_listener(self.listener)
+            proc.add_process_listener(self.listener2)
             self.task = loop.create_task(proc.step_until_terminated())
             script = list(SCENARIOS[self.scenario])
             ticks = 0
@@ -361,6 +368,7 @@ class Run:
             'task': ('pending' if not self.task.done() else 'cancelled' if self.task.cancelled() else
                      ('exception', self.task.exception()) if self.task.exception() is not None else 'returned'),
             'trace': list(ENV.trace), 'outputs': dict(proc.outputs), 'seen': list(self.listener.seen) if self.listener else [],
+            'seen2': list(self.listener2.seen) if self.listener2 else [],
             'contexts': [(c.get('message', ''), type(c.get('exception')).__name__) for c in self.contexts],
         }
         try:
@@ -418,6 +426,8 @@ def judge(scenario: str, plan: Tuple[str, int, str], run: Run, twin: Run) -> Lis
             violate('listener:changes-the-process', {'faulted': repr(obs)[:400], 'twin': repr(twin.obs)[:400]}, kind=kind)
         if any(r[2] is not None for r in run.call_results):
             violate('listener:exception-reaches-caller', repr(run.call_results), kind=kind)
+        if obs['seen'] != twin.obs['seen'] or obs['seen2'] != twin.obs['seen2']:
+            violate('listener:other-listener-misses-notifications', {'first': obs['seen'], 'second': obs['seen2'], 'twin': twin.obs['seen']}, kind=kind)
         return out
     if kind == 'pause-play-hook':
         # reported to whoever requested the pause / play ...
@@ -469,7 +479,7 @@ def judge(scenario: str, plan: Tuple[str, int, str], run: Run, twin: Run) -> Lis
     return out
 
 
-def census(scenario: str, program: str = 'process') -> Tuple[Run, Dict[Tuple[str, str], int]]:
+def census(scenario: str, program: str = 'process') -> Tuple[Run, Dict[Tuple[str, str, Any], int]]:
     twin = Run(scenario, None, program)
     twin.execute()
     return twin, dict(ENV.counts)
@@ -488,7 +498,10 @@ def check_scenario(job: Any) -> Dict[str, Any]:
     extra.execute()
     for key, n in ENV.counts.items():
         counts[key] = max(counts.get(key, 0), n)
-    for (site, position), n in sorted(counts.items()):
+    per_site: Dict[Tuple[str, str], int] = {}
+    for (site, position, _who), n in counts.items():
+        per_site[(site, position)] = max(per_site.get((site, position), 0), n)
+    for (site, position), n in sorted(per_site.items()):
         for occurrence in range(1, n + 1):
             plan = (site, occurrence, position)
             run = Run(scenario, plan, program)
